@@ -395,6 +395,33 @@ def work(job):
                     if accepted != valid_id(ident):
                         part.violation('invalid-identifier-handed-out' if accepted else 'valid-identifier-rejected',
                                        f'list notation: {ident!r}', {'kind': 'idlist', 'ids': ['ok', ident]})
+    elif kind == 'codepoints':
+        # every Unicode code point up to U+FFFF (+ a few astral ones) alone, after and before an ASCII letter:
+        # the library must classify it like the ASCII-only definition of an identifier does
+        from dznpy.scoping import NamespaceIds, NamespaceIdsTypeError  # pylint: disable=import-outside-toplevel
+        lo, hi = job[1]
+        points = list(range(lo, hi)) + ([0x1D400, 0x1F600, 0x10FFFF, 0x2F800] if lo == 0 else [])
+        for cp in points:
+            if 0xD800 <= cp <= 0xDFFF:
+                continue
+            ch = chr(cp)
+            for ident in (ch, 'x' + ch, ch + 'x'):
+                part.evaluations += 1
+                try:
+                    NamespaceIds([ident])
+                    accepted = True
+                except NamespaceIdsTypeError:
+                    accepted = False
+                except Exception as exc:  # pylint: disable=broad-except
+                    part.violation(f'idlist-exception:{type(exc).__name__}', repr(ident), {'kind': 'idlist', 'ids': [ident]})
+                    continue
+                if accepted != valid_id(ident):
+                    part.violation('invalid-identifier-handed-out' if accepted else 'valid-identifier-rejected',
+                                   f'code point U+{cp:04X}: {ident!r}', {'kind': 'idlist', 'ids': [ident]})
+        part.states += len(points)
+        part.transitions += len(points)
+        part.nontrivial += len(points)
+        part.outcome('codepoints')
     elif kind == 'idlists':
         pool = ['a', 'Z9', '_x']
         for n in range(0, 4):
@@ -441,6 +468,7 @@ def explore(ctx):
     maxlen = 5 if ctx.thorough else 4
     jobs += [('strings', (i, 16, maxlen)) for i in range(16)]
     jobs += [('tokens', (i, 8, 6 if pairs else 5)) for i in range(8)]
+    jobs += [('codepoints', (lo, lo + 4096)) for lo in range(0, 0x10000, 4096)]
     jobs += [('idlists', None), ('charprobes', None)]
     for part in pmap(work, jobs):
         ctx.merge(part)
